@@ -79,18 +79,34 @@ Example C14_example_run :
   match afind 7 (accts p) with Some L => procs L = [0] | None => False end.
 Proof. vm_compute. repeat split. Qed.
 
-(* A quirk that the property text does not forbid (documented in docs/C14.md): the processable run is gap-free in
-   itself but need not start at the sender's lowest pooled nonce.  Nonce 3 is promoted while it is alone; nonces 0 and 1
-   arrive later and are never promoted while 3 stays (GetPromotable skips "as many lowest nonces as there are
-   processables"), and GetUnprocessables then lists the processable nonce 3 as unprocessable. All invariants hold. *)
-Example C14_processables_need_not_be_lowest :
+(* the processable run never starts above a pooled lower nonce: every pooled nonce of the sender below a processable
+   nonce is processable itself, i.e. (with gap-freeness) the processables are exactly the sender's lowest pooled nonces.
+   Holds for every interleaving: a new lower nonce demotes (Add), and Promote refuses a run that does not start at the
+   sender's lowest pooled nonce (first processable removed between GetPromotable and Promote). *)
+Theorem C14_processables_are_lowest : forall c ops a L, cfg_ok c -> afind a (accts (run c ops)) = Some L ->
+  forall n p, In n (nonces L) -> In p (procs L) -> n < p -> In n (procs L).
+Proof. exact processables_are_lowest. Qed.
+
+(* the two schedules that used to break it *)
+Example C14_lower_nonce_arriving_later_demotes :
   let c := mkCfg 3 3 0 1 in
   let t3 := mkTx 1 7 3 100 5 in let t0 := mkTx 2 7 0 100 6 in let t1 := mkTx 3 7 1 100 7 in
   let p := run c [OAdd t3 AOk true []; OReorgSpawn; OReorgStep 7 []; OReorgStep 7 []; OReorgStep 7 [];
                   OAdd t0 AOk true []; OAdd t1 AOk true []; OReorgSpawn; OReorgStep 7 []; OReorgStep 7 []; OReorgStep 7 []] in
   match afind 7 (accts p) with
-  | Some L => procs L = [3] /\ sortN (nonces L) = [0; 1; 3] /\ get_promotable L = [] /\
-              map tnonce (get_unprocessables L) = [1; 3]
+  | Some L => procs L = [0; 1] /\ sortN (nonces L) = [0; 1; 3]
+  | None => False
+  end.
+Proof. vm_compute. repeat split. Qed.
+Example C14_first_processable_removed_during_reorg :
+  let c := mkCfg 3 3 0 1 in
+  let t0 := mkTx 1 7 0 100 5 in let t1 := mkTx 2 7 1 100 6 in let t2 := mkTx 3 7 2 100 7 in
+  let p := run c [OAdd t0 AOk true []; OAdd t1 AOk true []; OReorgSpawn; OReorgStep 7 []; OReorgStep 7 []; OReorgStep 7 [];
+                  OAdd t2 AOk true []; OReorgSpawn; OReorgStep 7 []; OReorgStep 7 [];
+                  ORemove 1;                  (* nonce 0 leaves between GetProcessables and Promote *)
+                  OReorgStep 7 []] in
+  match afind 7 (accts p) with
+  | Some L => procs L = [] /\ sortN (nonces L) = [1; 2] /\ map tnonce (get_promotable L) = [1; 2]
   | None => False
   end.
 Proof. vm_compute. repeat split. Qed.
